@@ -53,6 +53,7 @@ const (
 	c19fpLocks = 2 // time-lock deltas, height, final CLTV delta, CLTV limit, fee limit symbolic; amounts and fee policies concrete
 	c19fpRates = 4 // with c19fpFees: proportional fee rates (outbound and inbound) symbolic too
 	c19fpAll   = 7
+	c19fpBases = 8 // reduced fee set: only base fees (outbound and inbound), the source's bandwidth, the fee limit and the CLTV limit symbolic; amount, HTLC ranges, capacities, rates and time-lock data concrete
 )
 
 func c19fpNode(i int) route.Vertex {
@@ -200,6 +201,17 @@ func c19fpChanInput(k, from, to, set int) c19fpChan {
 				c.pol.irate = vI32("inboundRate")
 				vAssume(c.pol.irate <= c19InRate && c.pol.irate >= -c19InRate)
 			}
+		}
+	}
+	if set&c19fpBases != 0 {
+		if from == c19fpS {
+			c.bw = vU64("bandwidth")
+		} else {
+			c.pol.base = vU64("feeBase")
+			vAssume(c.pol.base <= 0xffffffff) // fee_base_msat is a uint32 on the wire
+		}
+		if to != c19fpT {
+			c.pol.ibase = vI32("inboundBase")
 		}
 	}
 	if set&c19fpLocks != 0 && from != c19fpS {
@@ -506,6 +518,15 @@ func c19fpBody(topo, set int) {
 }
 
 // Entries: VerifC19Find<topology><set>.
+//
+// Registered in spec.json: LineFees (quick: restriction set 0 only, thorough:
+// all six), LineLocks, ParLocks (both tiers), Line3Locks (thorough). The other
+// entries are kept for reference but are NOT registered, because they did not
+// finish within the entry budget on this machine (see NOTES.md, "findPath
+// extension"): LineRates / LineAll (symbolic rate x symbolic amount: solver
+// gives up on the liveness obligation), Line3Fees / Line3Bases (chained fee
+// arithmetic over two forwarding nodes: solver-unknown), ParFees / ParBases
+// (hundreds of heap-order paths: budget), and consequently Line3All / ParAll.
 func VerifC19FindLineFees()   { c19fpBody(1, c19fpFees) }
 func VerifC19FindLineRates()  { c19fpBody(1, c19fpFees|c19fpRates) }
 func VerifC19FindLineLocks()  { c19fpBody(1, c19fpLocks) }
@@ -513,6 +534,8 @@ func VerifC19FindLineAll()    { c19fpBody(1, c19fpAll) }
 func VerifC19FindLine3Fees()  { c19fpBody(2, c19fpFees) }
 func VerifC19FindLine3Locks() { c19fpBody(2, c19fpLocks) }
 func VerifC19FindLine3All()   { c19fpBody(2, c19fpAll) }
+func VerifC19FindLine3Bases() { c19fpBody(2, c19fpBases) }
+func VerifC19FindParBases()   { c19fpBody(3, c19fpBases) }
 func VerifC19FindParFees()    { c19fpBody(3, c19fpFees) }
 func VerifC19FindParLocks()   { c19fpBody(3, c19fpLocks) }
 func VerifC19FindParAll()     { c19fpBody(3, c19fpAll) }
